@@ -76,6 +76,15 @@ def run(repo, tier) -> Result:
     from ..manager_rules import check_collapse, check_fill
 
     check_collapse("C02", res, repo, want=("R-CONSERVE", "R-FILLPATH"))
+    # labels of closed buckets are re-derived on every pass (the first candle is re-anchored): they stay what they were only if the
+    # grid has one fixed origin
+    from ..manager_rules import check_epoch
+
+    check_epoch("C02", res, repo)
+    # a merge wipes the readings of the bucket it changed: only calculate() (the resume scan) finds that bucket again
+    from ..driver import check_append_order
+
+    check_append_order("C02", res, repo, parts=("indicator", "hexital"))
     check_fill("C02", res, repo)
     from ..contracts import check_all
 
